@@ -9,12 +9,14 @@ package egress
 import (
 	"context"
 	"net"
+	"net/http"
 	"strconv"
 	"sync"
 	"syscall"
 	"time"
 
 	"github.com/conduitio/conduit/pkg/foundation/cerrors"
+	"github.com/conduitio/conduit/pkg/foundation/log"
 )
 
 func init() {
@@ -23,6 +25,7 @@ func init() {
 	verifRegister("VerifC18RefuseLen", VerifC18RefuseLen)
 	verifRegister("VerifC18Dial", VerifC18Dial)
 	verifRegister("VerifC18Policy", VerifC18Policy)
+	verifRegister("VerifC18Transport", VerifC18Transport)
 	verifRegister("VerifC18Control", VerifC18Control)
 	verifRegister("VerifC18Witness", VerifC18Witness)
 }
@@ -336,6 +339,19 @@ func vAllow(k int) AllowEntry {
 // host and port all equal (independent of the implementation's key function).
 func vSameEndpoint(a, b AllowEntry) bool {
 	return a.Scheme == b.Scheme && a.Host == b.Host && a.Port == b.Port
+}
+
+// VerifC18Transport: the HTTP client the service builds never consults the
+// proxy environment, never follows redirects on its own, and dials only through
+// the gated dialer (structural check of what New constructs).
+func VerifC18Transport() {
+	s := New(Policy{Enabled: verifBool("enabled")}, log.Nop())
+	tr, ok := s.client.Transport.(*http.Transport)
+	verifAssert(ok && tr != nil, "c18-transport-not-the-gated-one")
+	verifAssert(tr.Proxy == nil, "c18-transport-honours-proxy-environment")
+	verifAssert(tr.DialContext != nil && tr.Dial == nil && tr.DialTLSContext == nil && tr.DialTLS == nil, "c18-transport-has-an-ungated-dial-path")
+	verifAssert(s.client.CheckRedirect != nil, "c18-client-follows-redirects")
+	verifCover("end")
 }
 
 func VerifC18Policy() {
